@@ -399,6 +399,19 @@ Proof.
     + intros x Hx. pose proof (char_hlist_bounds sh c x Hc Hx). lia.
 Qed.
 
+Lemma chars_hlist_reach cs q h :
+  chars_handles_ok cs q = true -> q <= h -> h < chars_end_handle cs q ->
+  exists x, In x (chars_hlist cs q) /\ h <= x.
+Proof.
+  revert q; induction cs as [|c t IH]; intros q H Hq Hh; cbn [chars_end_handle chars_hlist] in *; [lia|].
+  apply chars_handles_ok_cons in H. destruct H as [Hc Ht].
+  destruct (h <? char_end_handle q c) eqn:E3.
+  - apply N.ltb_lt in E3. exists (char_end_handle q c - 1). split; [|lia].
+    apply in_or_app. left. apply char_hlist_last; auto.
+  - apply N.ltb_ge in E3. destruct (IH _ Ht E3 Hh) as [x [Hx1 Hx2]].
+    exists x. split; auto. apply in_or_app. right. auto.
+Qed.
+
 (* ------------------------------------------------------------------ the services *)
 Definition no_includes_b (ss : list service_decl) : bool :=
   forallb (fun s => match s_includes s with [] => true | _ => false end) ss.
@@ -502,23 +515,213 @@ Proof.
   - apply N.ltb_lt in E. destruct (h <=? svc_handle sh s) eqn:E2; [reflexivity|].
     apply N.leb_gt in E2. rewrite chars_ibh by auto.
     symmetry. apply first_ge_app_l.
-    (* some characteristic handle is >= h: otherwise the end handle would be svc_handle + 1 <= h *)
-    destruct (s_chars s) as [|c cs] eqn:Ec.
-    + cbn [chars_end_handle] in H4. lia.
-    + clear IH. rewrite H4 in E. clear H4 Hna Hge.
-      revert E H3. generalize (svc_handle sh s + 1) as q. generalize (c :: cs) as l. clear.
-      induction l as [|c t IHl]; intros q E H; cbn [chars_end_handle chars_hlist] in *.
-      * exists 0. lia.
-      * apply chars_handles_ok_cons in H. destruct H as [Hc Ht].
-        destruct (h <? char_end_handle q c) eqn:E3.
-        -- apply N.ltb_lt in E3. exists (char_end_handle q c - 1). split; [|lia].
-           apply in_or_app. left. apply char_hlist_last; auto.
-        -- apply N.ltb_ge in E3. destruct t as [|c' t'].
-           ++ cbn [chars_end_handle] in E. lia.
-           ++ destruct (IHl _ E Ht) as [x [Hx1 Hx2]]. exists x. split; auto. apply in_or_app. right. auto.
+    apply chars_hlist_reach; auto; lia.
   - apply N.ltb_ge in E.
     assert (Hs : (h <=? svc_handle sh s) = false) by (apply N.leb_gt; lia). rewrite Hs.
     rewrite first_ge_app.
     + rewrite chars_hlist_length. rewrite IH by auto. f_equal. lia.
     + intros x Hx. pose proof (chars_hlist_bounds _ _ _ H3 Hx). lia.
+Qed.
+
+(* ------------------------------------------------------------------ the whole configuration *)
+Definition no_includes (c : cfg) : Prop := no_includes_b (services c) = true.
+
+Lemma wf_handles_ok c : wf c -> svcs_handles_ok (services c) 1 = true.
+Proof.
+  unfold wf, wf_b. intros H.
+  repeat (apply andb_true_iff in H; destruct H as [H ?]). assumption.
+Qed.
+
+Lemma wf_attr_bound c : wf c -> number_of_attributes c < 65535.
+Proof.
+  unfold wf, wf_b. intros H.
+  repeat (apply andb_true_iff in H; destruct H as [H ?]).
+  match goal with X : (number_of_attributes c <? 65535) = true |- _ => apply N.ltb_lt in X; exact X end.
+Qed.
+
+Lemma assign_is_hlist c : wf c -> no_includes c -> assign c = svcs_hlist (services c) 1.
+Proof.
+  intros Hw Hn. unfold assign, requests.
+  change 0 with (1 - 1). apply svcs_assign; auto; [lia|apply wf_handles_ok; auto].
+Qed.
+
+Lemma assign_length c : wf c -> no_includes c -> length (assign c) = N.to_nat (number_of_attributes c).
+Proof.
+  intros Hw Hn. rewrite assign_is_hlist by auto.
+  destruct (svcs_hlist_length (services c) 1) as [H|H]; [exact H|]. unfold no_includes in Hn. congruence.
+Qed.
+
+(* (a) pointwise *)
+Lemma handle_by_index_nth c i :
+  wf c -> no_includes c -> i < number_of_attributes c ->
+  handle_by_index c i = nth (N.to_nat i) (assign c) 0.
+Proof.
+  intros Hw Hn Hi. pose proof (assign_length c Hw Hn) as Hl.
+  rewrite assign_is_hlist in * by auto. unfold handle_by_index.
+  replace i with (0 + N.of_nat (N.to_nat i)) at 1 by lia.
+  apply svcs_hbi; auto; [apply wf_handles_ok; auto|lia].
+Qed.
+
+Lemma map_seqN_nth (f : N -> N) (l : list N) :
+  (forall i, (i < length l)%nat -> f (N.of_nat i) = nth i l 0) ->
+  map f (seqN 0 (length l)) = l.
+Proof.
+  assert (G : forall (l : list N) (from : N) (f : N -> N),
+             (forall i, (i < length l)%nat -> f (from + N.of_nat i) = nth i l 0) -> map f (seqN from (length l)) = l).
+  { clear. induction l as [|x t IH]; intros from f H; cbn [length seqN map]; [reflexivity|].
+    f_equal.
+    - specialize (H O). cbn [nth length] in H. rewrite <- H by lia. f_equal. lia.
+    - apply IH. intros i Hi. specialize (H (S i)). cbn [nth length] in H. rewrite <- H by lia. f_equal. lia. }
+  intros H. apply G. intros i Hi. rewrite <- H by auto. f_equal.
+Qed.
+
+(* (a) handle_by_index over all indices is the abstract assignment *)
+Theorem handle_by_index_is_assign c :
+  wf c -> no_includes c ->
+  map (handle_by_index c) (seqN 0 (N.to_nat (number_of_attributes c))) = assign c.
+Proof.
+  intros Hw Hn. rewrite <- (assign_length c Hw Hn).
+  apply map_seqN_nth. intros i Hi. rewrite handle_by_index_nth; auto.
+  - f_equal. lia.
+  - rewrite (assign_length c Hw Hn) in Hi. lia.
+Qed.
+
+Theorem assign_increasing c : increasing_from 0 (assign c) = true.
+Proof. apply assign_from_increasing. Qed.
+
+(* (b) first_index_by_handle = least index with handle >= h *)
+Theorem first_index_by_handle_spec c h :
+  wf c -> no_includes c -> first_index_by_handle c h = first_ge (assign c) h 0.
+Proof.
+  intros Hw Hn. rewrite assign_is_hlist by auto. unfold first_index_by_handle.
+  apply svcs_fibh; auto. apply wf_handles_ok; auto.
+Qed.
+
+Lemma first_ge_range l h i :
+  first_ge l h i = invalid_index \/ (i <= first_ge l h i /\ first_ge l h i < i + N.of_nat (length l)).
+Proof.
+  revert i; induction l as [|x t IH]; intros i; cbn [first_ge length]; [left; reflexivity|].
+  destruct (h <=? x); [right; lia|].
+  destruct (IH (i + 1)) as [H|H]; [left; exact H|right; lia].
+Qed.
+
+(* what first_ge computes *)
+Lemma first_ge_spec l h i r :
+  first_ge l h i = r -> r <> invalid_index ->
+  h <= nth (N.to_nat (r - i)) l 0 /\ forall j, (j < N.to_nat (r - i))%nat -> nth j l 0 < h.
+Proof.
+  revert i; induction l as [|x t IH]; intros i H Hr; cbn [first_ge] in H; [congruence|].
+  destruct (h <=? x) eqn:E.
+  - subst r. replace (i - i) with 0 by lia. cbn [N.to_nat nth]. split; [apply N.leb_le; auto|intros; lia].
+  - apply N.leb_gt in E. destruct (first_ge_range t h (i + 1)) as [Hx|Hx]; [congruence|].
+    destruct (IH _ H Hr) as [I1 I2]. rewrite H in Hx.
+    replace (N.to_nat (r - i)) with (S (N.to_nat (r - (i + 1)))) by lia. cbn [nth]. split; auto.
+    intros [|j] Hj; cbn [nth]; auto. apply I2. lia.
+Qed.
+
+Theorem index_by_handle_spec c h :
+  wf c -> no_includes c -> index_by_handle c h = index_eq (assign c) h 0.
+Proof.
+  intros Hw Hn. unfold index_by_handle. cbv zeta.
+  rewrite (index_eq_first_ge 0 (assign c) h 0 (assign_increasing c)). cbv zeta.
+  rewrite (first_index_by_handle_spec c h Hw Hn).
+  destruct (first_ge (assign c) h 0 =? invalid_index) eqn:E; cbn [negb andb]; [reflexivity|].
+  apply N.eqb_neq in E.
+  destruct (first_ge_range (assign c) h 0) as [Hx|Hx]; [congruence|].
+  rewrite handle_by_index_nth; auto.
+  - replace (first_ge (assign c) h 0 - 0) with (first_ge (assign c) h 0) by lia. reflexivity.
+  - rewrite (assign_length c Hw Hn) in Hx. lia.
+Qed.
+
+Lemma index_eq_nth p l i j :
+  increasing_from p l = true -> (i < length l)%nat -> index_eq l (nth i l 0) j = j + N.of_nat i.
+Proof.
+  revert p i j; induction l as [|x t IH]; intros p i j H Hi; cbn [length] in Hi; [lia|].
+  cbn [increasing_from] in H. apply andb_true_iff in H. destruct H as [H1 H2]. apply N.ltb_lt in H1.
+  destruct i as [|i]; cbn [nth index_eq].
+  - rewrite N.eqb_refl. lia.
+  - assert (Hlt : x < nth i t 0) by (apply (increasing_from_lower x t); auto; apply nth_In; lia).
+    replace (nth i t 0 =? x) with false by (symmetry; apply N.eqb_neq; lia).
+    rewrite (IH x) by (auto; lia). lia.
+Qed.
+
+Lemma index_eq_not_in l h j : ~ In h l -> index_eq l h j = invalid_index.
+Proof.
+  revert j; induction l as [|x t IH]; intros j H; cbn [index_eq]; [reflexivity|].
+  destruct (h =? x) eqn:E; [apply N.eqb_eq in E; subst; exfalso; apply H; left; reflexivity|].
+  apply IH. intros Hin. apply H. right. exact Hin.
+Qed.
+
+(* (b) inverse laws *)
+Theorem index_by_handle_inverse c i :
+  wf c -> no_includes c -> i < number_of_attributes c ->
+  index_by_handle c (handle_by_index c i) = i /\ handle_by_index c i <> invalid_handle.
+Proof.
+  intros Hw Hn Hi. pose proof (assign_length c Hw Hn) as Hl.
+  rewrite index_by_handle_spec by auto. rewrite handle_by_index_nth by auto. split.
+  - rewrite (index_eq_nth 0) by (try apply assign_increasing; lia). lia.
+  - assert (0 < nth (N.to_nat i) (assign c) 0); [|unfold invalid_handle; lia].
+    apply (increasing_from_lower 0 (assign c)); [apply assign_increasing|apply nth_In; lia].
+Qed.
+
+Theorem index_by_handle_other c h :
+  wf c -> no_includes c ->
+  (forall i, i < number_of_attributes c -> handle_by_index c i <> h) ->
+  index_by_handle c h = invalid_index.
+Proof.
+  intros Hw Hn H. pose proof (assign_length c Hw Hn) as Hl.
+  rewrite index_by_handle_spec by auto. apply index_eq_not_in. intros Hin.
+  apply (In_nth _ _ 0) in Hin. destruct Hin as [k [Hk1 Hk2]].
+  apply (H (N.of_nat k)); [lia|]. rewrite handle_by_index_nth by (auto; lia).
+  rewrite Nat2N.id. exact Hk2.
+Qed.
+
+(* ------------------------------------------------------------------ (c) characteristic declarations *)
+Lemma char_attribute_at_decl s c g cci i s' ch' :
+  char_attribute_at s c g cci i = Some (ACharDecl s' ch') -> i = 0 /\ ch' = c.
+Proof.
+  unfold char_attribute_at, char_attrs. intros H.
+  destruct (N.to_nat i) as [|[|k]] eqn:E; cbn [nth_error] in H.
+  - inversion H. split; [lia|reflexivity].
+  - discriminate.
+  - apply nth_error_In in H. unfold char_tail_attrs in H.
+    apply in_app_or in H. destruct H as [H|H].
+    + destruct (has_cccd c); [destruct H as [H|[]]; discriminate|destruct H].
+    + apply in_app_or in H. destruct H as [H|H].
+      * destruct (c_name c); [destruct H as [H|[]]; discriminate|destruct H].
+      * apply in_map_iff in H. destruct H as [d [H _]]. discriminate.
+Qed.
+
+Lemma chars_attribute_at_decl s cs g cci i s' ch' :
+  chars_attribute_at s cs g cci i = Some (ACharDecl s' ch') -> i + 1 < sumN char_nattrs cs /\ In ch' cs.
+Proof.
+  revert g cci i; induction cs as [|c t IH]; intros g cci i H; cbn [chars_attribute_at sumN] in *; [discriminate|].
+  pose proof (char_nattrs_extra c).
+  destruct (i <? char_nattrs c) eqn:E.
+  - apply char_attribute_at_decl in H. destruct H as [-> ->]. split; [lia|left; reflexivity].
+  - apply N.ltb_ge in E. apply IH in H. destruct H as [H1 H2]. split; [lia|right; exact H2].
+Qed.
+
+Lemma svcs_attribute_at_decl ss g cci i s' ch' :
+  svcs_attribute_at ss g cci i = Some (ACharDecl s' ch') -> i + 1 < sumN svc_nattrs ss.
+Proof.
+  revert g cci i; induction ss as [|s t IH]; intros g cci i H; cbn [svcs_attribute_at sumN] in *; [discriminate|].
+  destruct (i <? svc_nattrs s) eqn:E.
+  - unfold svc_attribute_at in H. destruct (i <? svc_nsattrs s) eqn:E2.
+    + destruct (i =? 0); [discriminate|]. destruct (nth_error (s_includes s) (N.to_nat (i - 1))); discriminate.
+    + apply N.ltb_ge in E2. apply chars_attribute_at_decl in H. destruct H as [H _].
+      unfold svc_nattrs. lia.
+  - apply N.ltb_ge in E. apply IH in H. lia.
+Qed.
+
+(* (c) the value of a characteristic declaration: properties, ASSIGNED handle of the value attribute, uuid *)
+Theorem char_declaration_value c i s ch :
+  wf c -> no_includes c -> attribute_at c i = Some (ACharDecl s ch) ->
+  exists vh, vh = nth (N.to_nat (i + 1)) (assign c) 0 /\ vh <> invalid_handle /\ vh = handle_by_index c (i + 1).
+Proof.
+  intros Hw Hn H. unfold attribute_at in H. apply svcs_attribute_at_decl in H.
+  fold (number_of_attributes c) in H.
+  destruct (index_by_handle_inverse c (i + 1) Hw Hn H) as [_ Hnz].
+  exists (handle_by_index c (i + 1)). repeat split; auto.
+  apply handle_by_index_nth; auto.
 Qed.
